@@ -1,5 +1,6 @@
 import RxnModel.Proofs.CkptInv
 import RxnModel.Proofs.CkptFiles
+import RxnModel.Generated.Facts
 /-!
 # C08 — a DKV checkpoint restores to exactly the state at the `Checkpoint` call
 
@@ -20,6 +21,19 @@ That `Lsm.get` itself returns the latest write of the whole history is the subje
 namespace Rxn.C08
 open Rxn Rxn.Ckpt
 open Rxn.Lsm (answer levelsGet)
+
+/-- The statements of the source that the model's actions transcribe are where the model assumes them
+(regenerated from `dkv/db.go`, `dkv/recovery/checkpoint_list.go`, `dkv/sst/table_writer.go`, `dkv/wal/writer.go` on
+every run): WAL rotation and capture of the level list in one critical section; WAL saved before the document;
+`After = LatestSeqNum`; a restored instance takes its sequence number from the loaded level list, continues table
+numbering above the loaded tables (D28) and WAL numbering above the loaded WAL; the flush commit truncates the WAL
+at `LatestSeqNum` inside the critical section of the level swap; `endSeqNum` is a maximum (D6); `Rotate` keeps
+the segment markers (D27). -/
+theorem code_shape :
+    Facts.c08CaptureUnderLock = 1 ∧ Facts.c08SaveWalThenDoc = 1 ∧ Facts.c08AfterIsLatest = 1 ∧
+    Facts.c08StartSeqFromLevels = 1 ∧ Facts.c08StartSkipsTableIDs = 1 ∧ Facts.c08StartNextWALID = 1 ∧
+    Facts.c08FlushTruncates = 1 ∧ Facts.c08EndSeqIsMax = 1 ∧ Facts.c08RotateKeepsMarks = 1 := by
+  decide
 
 /-- the memory/WAL invariant holds after every history -/
 theorem inv_step (s s' : State) (a : Act) (hi : Inv s) (h : step s a = some s') : Inv s' := by
